@@ -91,6 +91,14 @@ static InstResult run_unary(const std::vector<CrashInfo> &cr, size_t maxlen) {
 					check_owned(g, "ab", "append-after-detach");
 				}
 				for(size_t i = 0; i < s.size(); i++) EXPECT(a[i] == s[i] && v[i] == s[i], "C15", "string:index", "operator[] differs");
+				// views that ALIAS one buffer: every pair of sub-views of this string (same start with different lengths,
+				// overlapping, nested) must compare like their contents
+				for(size_t f1 = 0; f1 <= s.size(); f1++) for(size_t n1 = 0; f1 + n1 <= s.size(); n1++) for(size_t f2 = 0; f2 <= s.size(); f2++) for(size_t n2 = 0; f2 + n2 <= s.size(); n2++) {
+					View x = v.sub_string(f1, n1), y = v.sub_string(f2, n2);
+					std::string sx = s.substr(f1, n1), sy = s.substr(f2, n2);
+					EXPECT((x == y) == (sx == sy) && (x != y) == (sx != sy), "C15", "view:==:aliasing", "sub-views of one buffer compare differently from their contents");
+					EXPECT(x.starts_with(y) == (sx.compare(0, sy.size(), sy) == 0 && sy.size() <= sx.size()), "C15", "view:starts_with:aliasing", "starts_with() of sub-views of one buffer differs from the reference");
+				}
 				// hashing: string and view agree, equal contents -> equal hash
 				unsigned h1 = frg::hash<Str>{}(a), h2 = frg::hash<View>{}(v), h3 = frg::hash<Str>{}(c);
 				EXPECT(h1 == h2 && h1 == h3, "C15", "string:hash", "hash of equal contents differs (string vs view vs copy)");
